@@ -6,7 +6,7 @@
 (* Instance: four live sets (1..3 signers; weights on the u128 lattice with       *)
 (* exact-threshold and total = u128::MAX cases); EVERY vector over the 8          *)
 (* signature tags for every installed set (all signing subsets, every corruption  *)
-(* before/after the threshold is reached); nine single tamperings of the declared *)
+(* before/after the threshold is reached); ten single tamperings of the declared  *)
 (* set; histories of 0..3 rotations with retention 1 (claimed sets latest /        *)
 (* retained / expired / never installed); both entry points.                      *)
 EXTENDS Gateway, Json
@@ -23,6 +23,9 @@ MC_Sets ==
    Tdrop   |-> [keys |-> <<1, 2>>,       weights |-> <<1, 2>>,       threshold |-> 3, nonce |-> 3],
    Tadd    |-> [keys |-> <<1, 2, 3, 4>>, weights |-> <<1, 2, 1, 1>>, threshold |-> 3, nonce |-> 3],
    Tdup    |-> [keys |-> <<1, 2, 2>>,    weights |-> <<1, 2, 2>>,    threshold |-> 3, nonce |-> 3],
+   \* A3 with its heaviest member listed twice: if repeated entries are merged when the set is hashed but counted
+   \* one by one when weights are added, that member alone (weight 2 of 3) would pass
+   Tdup2   |-> [keys |-> <<1, 2, 2, 3>>, weights |-> <<1, 2, 2, 1>>, threshold |-> 3, nonce |-> 3],
    Tswap   |-> [keys |-> <<2, 1, 3>>,    weights |-> <<2, 1, 1>>,    threshold |-> 3, nonce |-> 3],
    Twplus  |-> [keys |-> <<1, 2, 3>>,    weights |-> <<1, 3, 1>>,    threshold |-> 3, nonce |-> 3],
    Twminus |-> [keys |-> <<1, 2, 3>>,    weights |-> <<1, 1, 1>>,    threshold |-> 3, nonce |-> 3],
@@ -42,6 +45,11 @@ Vectors(s) == [1..Len(Sets[s].keys) -> SigTags]
 ProofSet(s) ==
     UNION {{[set |-> x, sigs |-> v] : v \in Vectors(x)} : x \in {y \in Live : s.epochOf[y] # 0}}
     \cup {Full(x) : x \in SetNames} \cup {Tagged(x, "WrongSet") : x \in SetNames \ Live}
+    \* every tampered list carrying the genuine signatures its members made for A3
+    \cup {[set |-> x, sigs |-> Full(x).sigs, signedFor |-> "A3"] : x \in SetNames \ Live}
+    \* genuine signatures of A3's members (made for A3's digest) arranged in the repeated list, and made for the list itself
+    \cup {[set |-> "Tdup2", sigs |-> sg, signedFor |-> f] :
+            sg \in {<<"Unsigned", "Valid", "Valid", "Unsigned">>, <<"Valid", "Valid", "Valid", "Unsigned">>}, f \in {"A3", "Tdup2"}}
 
 Acts(s) ==
     {[name |-> "ApproveMessages", msgs |-> <<"m1">>, proof |-> p, auth |-> {}] : p \in ProofSet(s)}
